@@ -1,6 +1,7 @@
 import Marwood.Lemmas.CompileCorrect2Aux
 import Marwood.Lemmas.CompileCorrect2Spec
 import Marwood.Lemmas.CompileCorrect2Instr
+import Marwood.Lemmas.CompileCorrect2TCall
 /-!
 # T01.3 stage 2 — statement of the simulation; constants, variables (lexical and global), `set!`, `if`, `lambda`
 -/
@@ -11,14 +12,52 @@ open Marwood.Spec.Eval (Val Prim Cell Env evalN evalStep applyStep evalArgs prop
 
 variable {H : Type} {ops : HeapOps H} {D : RepData2 ops}
 
-/-- expressions, at specification fuel `n` -/
-def ExprOK2 (D : RepData2 ops) (n : Nat) : Prop :=
-  ∀ f cst c base tail e cst' code (ρ : Env), F2 f c (bound ρ) tail e → CtxOK c →
+/-- a tail call returned to the caller of the current activation: the state `RET` would have left -/
+structure Ret2 (D : RepData2 ops) (W' : World) (s : MSt H) (σ σ' : SSt) (w : Val) (fr : Frame) (s' : MSt H) :
+    Prop where
+  steps : Steps ops s s'
+  ipL : s'.ipL = fr.lc
+  ipO : s'.ipO = fr.oc
+  ep : s'.ep = fr.epc
+  bp : s'.bp = fr.bpc
+  stack : LiveEq fr.st0 s'.stack
+  swf : SWF s'.stack
+  acc : VR2 D W' s'.heap σ'.store s'.acc w
+  inv : Inv2 D W' s'.heap σ'
+  ext : Ext2 D s.heap σ.store s'.heap σ'.store
+
+/-- the outcome of running code compiled with tail flag `tail`: control falls through behind the code, or
+    (tail position only) a tail call has replaced the frame and control is back in the caller -/
+def Out2 (D : RepData2 ops) (W' : World) (s : MSt H) (len : Nat) (σ σ' : SSt) (w : Val) (tail : Bool) (fr : Frame)
+    (s' : MSt H) : Prop :=
+  Run2 D W' s len σ σ' w s' ∨ (tail = true ∧ Ret2 D W' s σ σ' w fr s')
+
+/-- expressions in any position, at specification fuel `n`; in tail position `bp` must point at a frame -/
+def ExprOKT (D : RepData2 ops) (n : Nat) : Prop :=
+  ∀ f cst c base tail e cst' code (ρ : Env), F2 D.setG f c (bound ρ) tail e → CtxOK c →
   compileExpr f cst c base tail e = .ok (cst', code) → cst'.lambdas <+: D.final →
+  ∀ (σ : SSt) w (σ' : SSt), (evalN n).eval e ρ σ = .ok w σ' →
+  ∀ (W : World) (s : MSt H) (fr : Frame), CodeAt2 D c.envmap s.heap σ.store s.ipL base code → s.ipO = base →
+    Inv2 D W s.heap σ → EnvRep ops W s.heap c s.ep ρ → SWF s.stack →
+    (tail = true → FrameAt s.stack s.bp fr) →
+  ∃ W' s', W.le W' ∧ Out2 D W' s code.length σ σ' w tail fr s'
+
+/-- expressions in non-tail position -/
+def ExprOK2 (D : RepData2 ops) (n : Nat) : Prop :=
+  ∀ f cst c base e cst' code (ρ : Env), F2 D.setG f c (bound ρ) false e → CtxOK c →
+  compileExpr f cst c base false e = .ok (cst', code) → cst'.lambdas <+: D.final →
   ∀ (σ : SSt) w (σ' : SSt), (evalN n).eval e ρ σ = .ok w σ' →
   ∀ (W : World) (s : MSt H), CodeAt2 D c.envmap s.heap σ.store s.ipL base code → s.ipO = base →
     Inv2 D W s.heap σ → EnvRep ops W s.heap c s.ep ρ → SWF s.stack →
   ∃ W' s', W.le W' ∧ Run2 D W' s code.length σ σ' w s'
+
+theorem ExprOKT.nontail {n : Nat} (h : ExprOKT D n) : ExprOK2 D n := by
+  intro f cst c base e cst' code ρ hf hcx hcomp hpre σ w σ' hev W s hc hip hi her hw
+  obtain ⟨W', s', hw', o⟩ := h f cst c base false e cst' code ρ hf hcx hcomp hpre σ w σ' hev W s
+    ⟨0, 0, 0, 0, 0, s.stack⟩ hc hip hi her hw (by intro h; cases h)
+  rcases o with r | ⟨ht, _⟩
+  · exact ⟨W', s', hw', r⟩
+  · cases ht
 
 /-- application of a closure: from the state `CALL` leaves (operands, count, `%ep`, return address pushed;
     `ip` at the start of the closure's lambda) to the state `RET` leaves -/
@@ -50,6 +89,12 @@ theorem Run2.step_after {W : World} {s s' : MSt H} {o len len' : Nat} {σ σ' : 
     (hs : step ops s' = .ok ({ s' with ipO := o }, false)) (ho : o = s.ipO + len') :
     Run2 D W s len' σ σ' w { s' with ipO := o } :=
   ⟨r.steps.trans (Steps.one hs), r.ipL, ho, r.bp, r.ep, r.stack, r.swf, r.acc, r.inv, r.ext⟩
+
+/-- a successful prefix in front of a returning run -/
+theorem Ret2.prepend {W : World} {s s1 s' : MSt H} {σ σ1 σ' : SSt} {w : Val} {fr : Frame}
+    (hst : Steps ops s s1) (hx : Ext2 D s.heap σ.store s1.heap σ1.store) (q : Ret2 D W s1 σ1 σ' w fr s') :
+    Ret2 D W s σ σ' w fr s' :=
+  ⟨hst.trans q.steps, q.ipL, q.ipO, q.ep, q.bp, q.stack, q.swf, q.acc, q.inv, hx.trans q.ext⟩
 
 theorem Run2.codeAfter {W : World} {s s' : MSt H} {len : Nat} {σ σ' : SSt} {w : Val}
     (r : Run2 D W s len σ σ' w s') {em : List (Text × Source)} {base : Nat} {code : List BC}
@@ -136,8 +181,8 @@ theorem run2_store_lex (L : Laws2 D) {c : Ctx} {W : World} {s : MSt H} {σ : SSt
     (CodeAt2.right (a := [.op .mov, .acc, .envSlot x]) hc).ext hx2
   have hs2 := run2_movImm_void (s := { s with heap := h', ipO := s.ipO + 3 }) hc2
   refine ⟨_, ⟨.cons hs1 (Steps.one hs2), rfl, rfl, rfl, rfl, LiveEq.refl _, hw, VR2.void L _ _ _, ?_, hx2⟩⟩
-  refine ⟨fun y u hn hy => ?_, fun y hn hy => ?_, L.srx_store _ _ _ hse hsrx, hi.loaded.ext hx2, hi.wfun, hi.winj,
-    fun e' n' l' hW' => ?_⟩
+  refine ⟨fun y u hn hy => ?_, fun y hn hy => ?_, L.srx_store _ _ _ hse hsrx, hi.gset, hi.loaded.ext hx2, hi.wfun,
+    hi.winj, fun e' n' l' hW' => ?_⟩
   · show VR2 D W h' _ (ops.globGet h' _) u
     rw [hglob]; exact (hi.bound y u hn hy).mono hx2 (World.le_refl _)
   · show ops.globGet h' _ = _
@@ -171,7 +216,7 @@ theorem run2_store_glob (L : Laws2 D) {c : Ctx} {W : World} {s : MSt H} {σ : SS
     (CodeAt2.right (a := [.op .mov, .acc, .global x]) hc).ext hext
   have hs2 := run2_movImm_void (s := { s with heap := ops.globPut s.heap (D.slot x) s.acc, ipO := s.ipO + 3 }) hc2
   refine ⟨_, ⟨.cons hs1 (Steps.one hs2), rfl, rfl, rfl, rfl, LiveEq.refl _, hw, VR2.void L _ _ _, ?_, hext⟩⟩
-  refine ⟨fun y u hny hy => ?_, fun y hny hy => ?_, hsrx, hi.loaded.ext hext, hi.wfun, hi.winj,
+  refine ⟨fun y u hny hy => ?_, fun y hny hy => ?_, hsrx, fun y hy => ?_, hi.loaded.ext hext, hi.wfun, hi.winj,
     fun e' n' l' hW' => ?_⟩
   · show VR2 D W (ops.globPut s.heap (D.slot x) s.acc) σ.store (ops.globGet _ _) u
     have hy' : (insertG x w σ.globals).lookup y = some u := hy
@@ -199,12 +244,18 @@ theorem run2_store_glob (L : Laws2 D) {c : Ctx} {W : World} {s : MSt H} {σ : SS
       rw [L.glob_get_put _ _ _ _ _ hi.extra hnx]
       simp only [hne, if_false]
       exact hi.unbound y hny hy'
+  · show (insertG x w σ.globals).lookup y ≠ none
+    rw [Spec.Eval.lookup_insertG]
+    have := hi.gset y hy
+    by_cases hyx : (y == x) = true
+    · simp [hyx]
+    · simp only [hyx, Bool.false_eq_true, if_false]; exact this
   · obtain ⟨v, u, g1, g2, g3, g4⟩ := hi.vars e' n' l' hW'
     exact ⟨v, u, by rw [henv]; exact g1, g2, g3, g4.mono hext (World.le_refl _)⟩
 
 theorem case2_setBang (L : Laws2 D) {n : Nat} (ih : ExprOK2 D n)
     {f : Nat} {cst cst' : CState} {c : Ctx} {base : Nat} {tail : Bool} {x : Text} {e : Datum} {code : List BC}
-    {ρ : Env} (hsc : inEnv c x = true ↔ bound ρ x) (hfe : F2 f c (bound ρ) false e) (hcx : CtxOK c)
+    {ρ : Env} (hsc : inEnv c x = true ↔ bound ρ x) (hfe : F2 D.setG f c (bound ρ) false e) (hcx : CtxOK c)
     (hcomp : compileExpr (f + 1) cst c base tail
       (.pair (.sym k_setBang) (.pair (.sym x) (.pair e .nil))) = .ok (cst', code))
     (hpre : cst'.lambdas <+: D.final) {σ σ' : SSt} {w : Val}
@@ -215,7 +266,7 @@ theorem case2_setBang (L : Laws2 D) {n : Nat} (ih : ExprOK2 D n)
   obtain ⟨code1, hc1, rfl⟩ := compile_setBang_inv2 hcomp
   obtain ⟨v, σ1, he, rfl, hcase⟩ := evalStep_setBang_inv2 hev
   subst hip
-  obtain ⟨W1, s1, hw1, r1⟩ := ih _ _ _ _ _ _ _ _ _ hfe hcx hc1 hpre σ v σ1 he W s hc.left rfl hi her hw
+  obtain ⟨W1, s1, hw1, r1⟩ := ih _ _ _ _ _ _ _ _ hfe hcx hc1 hpre σ v σ1 he W s hc.left rfl hi her hw
   have hc2 := (r1.codeAfter hc.right).cast r1.ipO.symm
   have her1 : EnvRep ops W1 s1.heap c s1.ep ρ := by rw [r1.ep]; exact her.ext r1.ext hw1
   rcases hcase with ⟨l, hl, hlt, rfl⟩ | ⟨hl, _, rfl⟩
@@ -231,15 +282,17 @@ theorem case2_setBang (L : Laws2 D) {n : Nat} (ih : ExprOK2 D n)
 
 /-! ## `if` -/
 
-theorem case2_if2 (L : Laws2 D) {n : Nat} (ih : ExprOK2 D n)
+theorem case2_if2 (L : Laws2 D) {n : Nat} (ih : ExprOK2 D n) (iht : ExprOKT D n)
     {f : Nat} {cst cst' : CState} {c : Ctx} {base : Nat} {tail : Bool} {t cn : Datum} {code : List BC} {ρ : Env}
-    (hft : F2 f c (bound ρ) false t) (hfc : F2 f c (bound ρ) tail cn) (hcx : CtxOK c)
+    (hft : F2 D.setG f c (bound ρ) false t) (hfc : F2 D.setG f c (bound ρ) tail cn) (hcx : CtxOK c)
     (hcomp : compileExpr (f + 1) cst c base tail (.pair (.sym k_if_) (.pair t (.pair cn .nil))) = .ok (cst', code))
     (hpre : cst'.lambdas <+: D.final) {σ σ' : SSt} {w : Val}
     (hev : evalStep (evalN n) (.pair (.sym k_if_) (.pair t (.pair cn .nil))) ρ σ = .ok w σ')
-    {W : World} {s : MSt H} (hc : CodeAt2 D c.envmap s.heap σ.store s.ipL base code) (hip : s.ipO = base)
-    (hi : Inv2 D W s.heap σ) (her : EnvRep ops W s.heap c s.ep ρ) (hw : SWF s.stack) :
-    ∃ W' s', W.le W' ∧ Run2 D W' s code.length σ σ' w s' := by
+    {W : World} {s : MSt H} {fr : Frame}
+    (hc : CodeAt2 D c.envmap s.heap σ.store s.ipL base code) (hip : s.ipO = base)
+    (hi : Inv2 D W s.heap σ) (her : EnvRep ops W s.heap c s.ep ρ) (hw : SWF s.stack)
+    (hfr : tail = true → FrameAt s.stack s.bp fr) :
+    ∃ W' s', W.le W' ∧ Out2 D W' s code.length σ σ' w tail fr s' := by
   obtain ⟨cst1, tcode, ccode, hct, hcc, rfl⟩ := compile_if2_inv2 hcomp
   obtain ⟨v, σ1, het, hbr⟩ := evalStep_if2_inv hev
   subst hip
@@ -248,10 +301,12 @@ theorem case2_if2 (L : Laws2 D) {n : Nat} (ih : ExprOK2 D n)
   have hcC := hc.left.left.right
   have hcK := hc.left.right
   have hcV := hc.right
-  have hpre1 : cst1.lambdas <+: D.final := ((monoOK f).1 _ _ _ _ _ _ _ _ hfc hcc).trans hpre
-  obtain ⟨W1, s1, hw1, r1⟩ := ih _ _ _ _ _ _ _ _ _ hft hcx hct hpre1 σ v σ1 het W s hcT rfl hi her hw
+  have hpre1 : cst1.lambdas <+: D.final := ((monoOK _ f).1 _ _ _ _ _ _ _ _ hfc hcc).trans hpre
+  obtain ⟨W1, s1, hw1, r1⟩ := ih _ _ _ _ _ _ _ _ hft hcx hct hpre1 σ v σ1 het W s hcT rfl hi her hw
   have hcJ1 := (r1.codeAfter hcJ).cast r1.ipO.symm
   have her1 : EnvRep ops W1 s1.heap c s1.ep ρ := by rw [r1.ep]; exact her.ext r1.ext hw1
+  have hfr1 : tail = true → FrameAt s1.stack s1.bp fr := by
+    intro ht; rw [r1.bp]; exact (hfr ht).of_liveEq r1.stack
   have hlen : (tcode ++ [BC.op .jnt, BC.target (s.ipO + tcode.length + 2 + ccode.length + 2)] ++ ccode
       ++ [BC.op .jmp, BC.target (s.ipO + tcode.length + 2 + ccode.length + 2 + 3)]
       ++ [BC.op .movImm, BC.void, BC.acc]).length = tcode.length + 2 + ccode.length + 2 + 3 := by
@@ -264,15 +319,17 @@ theorem case2_if2 (L : Laws2 D) {n : Nat} (ih : ExprOK2 D n)
     have hj := step_jnt_true hcJ1.1 (hcJ1.op 0 rfl) (hcJ1.targetCell 1 rfl) hne
     have hcC1 : CodeAt2 D c.envmap s1.heap σ1.store s1.ipL (s.ipO + tcode.length + 2) ccode :=
       (r1.codeAfter hcC).cast (by simp only [List.length_append, List.length_cons, List.length_nil]; omega)
-    obtain ⟨W3, s3, hw3, r3⟩ := ih _ _ _ _ _ _ _ _ _ hfc hcx hcc hpre σ1 w σ' hec W1 { s1 with ipO := s1.ipO + 2 }
-      hcC1 (by show s1.ipO + 2 = _; omega) r1.inv her1 r1.swf
-    have r13 := r1.append (Run2.step_before (len' := 2 + ccode.length) hj r3 (by show _ = s1.ipO + _; omega))
-    have hcK3 : CodeAt2 D c.envmap s3.heap σ'.store s3.ipL s3.ipO
-        [BC.op .jmp, BC.target (s.ipO + tcode.length + 2 + ccode.length + 2 + 3)] :=
-      (r13.codeAfter hcK).cast (by
-        rw [r13.ipO]; simp only [List.length_append, List.length_cons, List.length_nil]; omega)
-    have hk := step_jmp hcK3.1 (hcK3.op 0 rfl) (hcK3.targetCell 1 rfl)
-    exact ⟨W3, _, World.le_trans hw1 hw3, r13.step_after hk (by omega)⟩
+    obtain ⟨W3, s3, hw3, o3⟩ := iht _ _ _ _ _ _ _ _ _ hfc hcx hcc hpre σ1 w σ' hec W1 { s1 with ipO := s1.ipO + 2 } fr
+      hcC1 (by show s1.ipO + 2 = _; omega) r1.inv her1 r1.swf hfr1
+    rcases o3 with r3 | ⟨ht, q3⟩
+    · have r13 := r1.append (Run2.step_before (len' := 2 + ccode.length) hj r3 (by show _ = s1.ipO + _; omega))
+      have hcK3 : CodeAt2 D c.envmap s3.heap σ'.store s3.ipL s3.ipO
+          [BC.op .jmp, BC.target (s.ipO + tcode.length + 2 + ccode.length + 2 + 3)] :=
+        (r13.codeAfter hcK).cast (by
+          rw [r13.ipO]; simp only [List.length_append, List.length_cons, List.length_nil]; omega)
+      have hk := step_jmp hcK3.1 (hcK3.op 0 rfl) (hcK3.targetCell 1 rfl)
+      exact ⟨W3, _, World.le_trans hw1 hw3, .inl (r13.step_after hk (by omega))⟩
+    · exact ⟨W3, s3, World.le_trans hw1 hw3, .inr ⟨ht, Ret2.prepend (r1.steps.trans (Steps.one hj)) r1.ext q3⟩⟩
   · have hf : ops.deref s1.heap s1.acc = .bool false := (VR2.truth L r1.acc).mpr rfl
     have hj := step_jnt_false hcJ1.1 (hcJ1.op 0 rfl) (hcJ1.targetCell 1 rfl) hf
     have hcV1 : CodeAt2 D c.envmap s1.heap σ'.store s1.ipL (s.ipO + tcode.length + 2 + ccode.length + 2)
@@ -282,21 +339,23 @@ theorem case2_if2 (L : Laws2 D) {n : Nat} (ih : ExprOK2 D n)
       (s := { s1 with ipO := s.ipO + tcode.length + 2 + ccode.length + 2 }) hcV1 r1.inv r1.swf
     have := r1.append (Run2.step_before (len' := 2 + ccode.length + 2 + 3) hj r3
       (by show _ = s1.ipO + _; omega))
-    exact ⟨W1, s3, hw1, by
+    exact ⟨W1, s3, hw1, .inl (by
       have e : tcode.length + (2 + ccode.length + 2 + 3) = tcode.length + 2 + ccode.length + 2 + 3 := by omega
-      rw [e] at this; exact this⟩
+      rw [e] at this; exact this)⟩
 
-theorem case2_if3 (L : Laws2 D) {n : Nat} (ih : ExprOK2 D n)
+theorem case2_if3 (L : Laws2 D) {n : Nat} (ih : ExprOK2 D n) (iht : ExprOKT D n)
     {f : Nat} {cst cst' : CState} {c : Ctx} {base : Nat} {tail : Bool} {t cn a : Datum} {code : List BC} {ρ : Env}
-    (hft : F2 f c (bound ρ) false t) (hfc : F2 f c (bound ρ) tail cn) (hfa : F2 f c (bound ρ) tail a)
+    (hft : F2 D.setG f c (bound ρ) false t) (hfc : F2 D.setG f c (bound ρ) tail cn) (hfa : F2 D.setG f c (bound ρ) tail a)
     (hcx : CtxOK c)
     (hcomp : compileExpr (f + 1) cst c base tail
       (.pair (.sym k_if_) (.pair t (.pair cn (.pair a .nil)))) = .ok (cst', code))
     (hpre : cst'.lambdas <+: D.final) {σ σ' : SSt} {w : Val}
     (hev : evalStep (evalN n) (.pair (.sym k_if_) (.pair t (.pair cn (.pair a .nil)))) ρ σ = .ok w σ')
-    {W : World} {s : MSt H} (hc : CodeAt2 D c.envmap s.heap σ.store s.ipL base code) (hip : s.ipO = base)
-    (hi : Inv2 D W s.heap σ) (her : EnvRep ops W s.heap c s.ep ρ) (hw : SWF s.stack) :
-    ∃ W' s', W.le W' ∧ Run2 D W' s code.length σ σ' w s' := by
+    {W : World} {s : MSt H} {fr : Frame}
+    (hc : CodeAt2 D c.envmap s.heap σ.store s.ipL base code) (hip : s.ipO = base)
+    (hi : Inv2 D W s.heap σ) (her : EnvRep ops W s.heap c s.ep ρ) (hw : SWF s.stack)
+    (hfr : tail = true → FrameAt s.stack s.bp fr) :
+    ∃ W' s', W.le W' ∧ Out2 D W' s code.length σ σ' w tail fr s' := by
   obtain ⟨cst1, cst2, tcode, ccode, acode, hct, hcc, hca, rfl⟩ := compile_if3_inv2 hcomp
   obtain ⟨v, σ1, het, hbr⟩ := evalStep_if3_inv hev
   subst hip
@@ -305,11 +364,13 @@ theorem case2_if3 (L : Laws2 D) {n : Nat} (ih : ExprOK2 D n)
   have hcC := hc.left.left.right
   have hcK := hc.left.right
   have hcA := hc.right
-  have hpre2 : cst2.lambdas <+: D.final := ((monoOK f).1 _ _ _ _ _ _ _ _ hfa hca).trans hpre
-  have hpre1 : cst1.lambdas <+: D.final := ((monoOK f).1 _ _ _ _ _ _ _ _ hfc hcc).trans hpre2
-  obtain ⟨W1, s1, hw1, r1⟩ := ih _ _ _ _ _ _ _ _ _ hft hcx hct hpre1 σ v σ1 het W s hcT rfl hi her hw
+  have hpre2 : cst2.lambdas <+: D.final := ((monoOK _ f).1 _ _ _ _ _ _ _ _ hfa hca).trans hpre
+  have hpre1 : cst1.lambdas <+: D.final := ((monoOK _ f).1 _ _ _ _ _ _ _ _ hfc hcc).trans hpre2
+  obtain ⟨W1, s1, hw1, r1⟩ := ih _ _ _ _ _ _ _ _ hft hcx hct hpre1 σ v σ1 het W s hcT rfl hi her hw
   have hcJ1 := (r1.codeAfter hcJ).cast r1.ipO.symm
   have her1 : EnvRep ops W1 s1.heap c s1.ep ρ := by rw [r1.ep]; exact her.ext r1.ext hw1
+  have hfr1 : tail = true → FrameAt s1.stack s1.bp fr := by
+    intro ht; rw [r1.bp]; exact (hfr ht).of_liveEq r1.stack
   have hlen : (tcode ++ [BC.op .jnt, BC.target (s.ipO + tcode.length + 2 + ccode.length + 2)] ++ ccode
       ++ [BC.op .jmp, BC.target (s.ipO + tcode.length + 2 + ccode.length + 2 + acode.length)]
       ++ acode).length = tcode.length + 2 + ccode.length + 2 + acode.length := by
@@ -322,26 +383,30 @@ theorem case2_if3 (L : Laws2 D) {n : Nat} (ih : ExprOK2 D n)
     have hj := step_jnt_true hcJ1.1 (hcJ1.op 0 rfl) (hcJ1.targetCell 1 rfl) hne
     have hcC1 : CodeAt2 D c.envmap s1.heap σ1.store s1.ipL (s.ipO + tcode.length + 2) ccode :=
       (r1.codeAfter hcC).cast (by simp only [List.length_append, List.length_cons, List.length_nil]; omega)
-    obtain ⟨W3, s3, hw3, r3⟩ := ih _ _ _ _ _ _ _ _ _ hfc hcx hcc hpre2 σ1 w σ' hec W1 { s1 with ipO := s1.ipO + 2 }
-      hcC1 (by show s1.ipO + 2 = _; omega) r1.inv her1 r1.swf
-    have r13 := r1.append (Run2.step_before (len' := 2 + ccode.length) hj r3 (by show _ = s1.ipO + _; omega))
-    have hcK3 : CodeAt2 D c.envmap s3.heap σ'.store s3.ipL s3.ipO
-        [BC.op .jmp, BC.target (s.ipO + tcode.length + 2 + ccode.length + 2 + acode.length)] :=
-      (r13.codeAfter hcK).cast (by
-        rw [r13.ipO]; simp only [List.length_append, List.length_cons, List.length_nil]; omega)
-    have hk := step_jmp hcK3.1 (hcK3.op 0 rfl) (hcK3.targetCell 1 rfl)
-    exact ⟨W3, _, World.le_trans hw1 hw3, r13.step_after hk (by omega)⟩
+    obtain ⟨W3, s3, hw3, o3⟩ := iht _ _ _ _ _ _ _ _ _ hfc hcx hcc hpre2 σ1 w σ' hec W1 { s1 with ipO := s1.ipO + 2 } fr
+      hcC1 (by show s1.ipO + 2 = _; omega) r1.inv her1 r1.swf hfr1
+    rcases o3 with r3 | ⟨ht, q3⟩
+    · have r13 := r1.append (Run2.step_before (len' := 2 + ccode.length) hj r3 (by show _ = s1.ipO + _; omega))
+      have hcK3 : CodeAt2 D c.envmap s3.heap σ'.store s3.ipL s3.ipO
+          [BC.op .jmp, BC.target (s.ipO + tcode.length + 2 + ccode.length + 2 + acode.length)] :=
+        (r13.codeAfter hcK).cast (by
+          rw [r13.ipO]; simp only [List.length_append, List.length_cons, List.length_nil]; omega)
+      have hk := step_jmp hcK3.1 (hcK3.op 0 rfl) (hcK3.targetCell 1 rfl)
+      exact ⟨W3, _, World.le_trans hw1 hw3, .inl (r13.step_after hk (by omega))⟩
+    · exact ⟨W3, s3, World.le_trans hw1 hw3, .inr ⟨ht, Ret2.prepend (r1.steps.trans (Steps.one hj)) r1.ext q3⟩⟩
   · have hf : ops.deref s1.heap s1.acc = .bool false := (VR2.truth L r1.acc).mpr rfl
     have hj := step_jnt_false hcJ1.1 (hcJ1.op 0 rfl) (hcJ1.targetCell 1 rfl) hf
     have hcA1 : CodeAt2 D c.envmap s1.heap σ1.store s1.ipL (s.ipO + tcode.length + 2 + ccode.length + 2) acode :=
       (r1.codeAfter hcA).cast (by simp only [List.length_append, List.length_cons, List.length_nil]; omega)
-    obtain ⟨W3, s3, hw3, r3⟩ := ih _ _ _ _ _ _ _ _ _ hfa hcx hca hpre σ1 w σ' hea W1
-      { s1 with ipO := s.ipO + tcode.length + 2 + ccode.length + 2 } hcA1 rfl r1.inv her1 r1.swf
-    have := r1.append (Run2.step_before (len' := 2 + ccode.length + 2 + acode.length) hj r3
-      (by show _ = s1.ipO + _; omega))
-    exact ⟨W3, s3, World.le_trans hw1 hw3, by
-      have e : tcode.length + (2 + ccode.length + 2 + acode.length)
-          = tcode.length + 2 + ccode.length + 2 + acode.length := by omega
-      rw [e] at this; exact this⟩
+    obtain ⟨W3, s3, hw3, o3⟩ := iht _ _ _ _ _ _ _ _ _ hfa hcx hca hpre σ1 w σ' hea W1
+      { s1 with ipO := s.ipO + tcode.length + 2 + ccode.length + 2 } fr hcA1 rfl r1.inv her1 r1.swf hfr1
+    rcases o3 with r3 | ⟨ht, q3⟩
+    · have := r1.append (Run2.step_before (len' := 2 + ccode.length + 2 + acode.length) hj r3
+        (by show _ = s1.ipO + _; omega))
+      exact ⟨W3, s3, World.le_trans hw1 hw3, .inl (by
+        have e : tcode.length + (2 + ccode.length + 2 + acode.length)
+            = tcode.length + 2 + ccode.length + 2 + acode.length := by omega
+        rw [e] at this; exact this)⟩
+    · exact ⟨W3, s3, World.le_trans hw1 hw3, .inr ⟨ht, Ret2.prepend (r1.steps.trans (Steps.one hj)) r1.ext q3⟩⟩
 
 end Marwood.Lemmas.CompileCorrect2
